@@ -8,7 +8,7 @@ PROPS = {
         lean_targets=["SJ.Props.C05", "SJ.Audit.C05"],
         configs=dict(quick=["d"], thorough=["d"]),
         gen_keys=["escape.", "hex.", "swar.", "Escape", "Hex", "Swar"],
-        allowed_axioms=[r".*\._native\.bv_decide\.ax_.*"],
+        allowed_axioms=[],
         rule="esc/escbufs: every Unicode scalar value as a one-character string (quick: all below U+3000, every 251st, "
              "surrogate-adjacent and plane boundaries, a random 1%), every byte < 0x80 at every offset of strings of every "
              "length 0..24 over ASCII and mixed 1-4-byte filler, adjacent/leading/trailing escapes, random mixtures up to 500 "
@@ -19,8 +19,8 @@ PROPS = {
              "ByteBuf from str/slice/reader (quick: &str-from-slice always plus one rotating combination), two-special and "
              "multi-chunk contents, random contents. Non-trivial: esc — the string has a byte that must be escaped or a "
              "non-ASCII character; hex4 — every group; scan — non-empty content; distinct = distinct case lines.",
-        trusted_base=[KERNEL + "; plus bv_decide's per-call axioms (SAT certificate checked by compiled code, Lean.ofReduceBool "
-                      "trust) for the two SWAR chunk lemmas and the two hex OR/shift lemmas",
+        trusted_base=[KERNEL + " (the two SWAR chunk lemmas and the two hex OR/shift lemmas are kernel-checked too: byte-wise "
+                      "borrow ripple with 256-case byte lemmas, and toNat/msb arithmetic - no bv_decide, no SAT certificate)",
                       TIE,
                       "memchr::memchr2 specified as 'index of the first occurrence of either needle' (external crate)",
                       "u64::from_le_bytes / wrapping_sub / trailing_zeros / chunks_exact modelled by their documented semantics on BitVec 64"],
@@ -37,14 +37,16 @@ PROPS = {
                  "(c05_hex_tables, c05_hex4_spec) and the SWAR scanner (c05_swar_first_escape, c05_swar_in_bounds, "
                  "c05_first_escape_char)"],
         technique="Lean 4 theorems over all byte strings / all 2^32 hex groups / all slices and start indices; ESCAPE, HEX0/HEX1 "
-                  "pieces and SWAR constants regenerated from source each run; bv_decide for the 64-bit chunk facts; differential "
+                  "pieces and SWAR constants regenerated from source each run; the 64-bit chunk facts by a byte-wise borrow-ripple induction "
+                  "(one 256-case kernel evaluation per byte fact); differential "
                   "run of escaping, \\u decoding and the scanner against the crate",
         level_text="Machine-checked Lean 4 theorems: the table-driven format_escaped_str equals the statement's per-character "
                    "escaping for every string and cuts its buffers only at ASCII bytes; decode_four_hex_digits equals the "
                    "positional hex value or None for all 2^32 groups; SliceRead::skip_to_escape (64-bit SWAR + memchr2 branch + "
                    "slow tail) returns the first escape index for every slice, index and mode. Tables and constants are "
                    "re-extracted from src/ser.rs and src/read.rs on every run and the models are run against the real crate.",
-        level_note="Trusted: Lean kernel + propext/Classical.choice/Quot.sound + bv_decide axioms (4 calls); extract.py; the "
+        level_note="Trusted: Lean kernel + propext/Classical.choice/Quot.sound (no other axiom: the SWAR and hex word identities are "
+                   "kernel-checked, not bv_decide); extract.py; the "
                    "harness/driver comparison; memchr2 and Rust integer primitives by documented semantics. Partial: the string "
                    "decoder itself (escapes, surrogate pairing, UTF-8 validation, borrowing) belongs to the parser machine and "
                    "is not covered by this branch.",
